@@ -207,7 +207,7 @@ def gen_ref(rng, fmt, spicy=False):
         k, w, a = rng.choice(base)
         ref.insert(rng.randint(0, len(ref)),
                    rec(k, w if fmt == "po" else revalue(rng, fmt, k, w, a), (), a))
-    if rng.random() < 0.2:
+    if rng.random() < (0.35 if fmt == "android" else 0.2):
         insert_junk(rng, ref)
     if spicy and fmt != "po":
         for i in range(len(ref)):
@@ -245,7 +245,7 @@ def gen_l10n(rng, fmt, used, base, spicy=False):
         it = rng.choice(l10n)
         w = list(it[2]) if rng.random() < 0.4 else revalue(rng, fmt, it[1], it[2], it[4])
         l10n.insert(rng.randint(0, len(l10n)), rec(it[1], w, (), it[4]))
-    if rng.random() < 0.25:
+    if rng.random() < (0.45 if fmt == "android" else 0.25):
         insert_junk(rng, l10n)
     return l10n
 
@@ -284,6 +284,14 @@ SPICE_L10N = {"properties": " %d �", "dtd": " <b>open &foo; �", "ini": " �
               "ftl": " { $m } �\n    .extra = attr", "android": " it's �", "po": " �"}
 
 
+# children of <resources> that are not <string name=...>: each is one Junk (XMLJunk)
+ANDROID_JUNK = ['  <junk n="%d"/>\n',
+                '  <plurals name="p%d"><item quantity="one">x</item><item quantity="other">y</item></plurals>\n',
+                '  <string-array name="arr%d"><item>x</item></string-array>\n',
+                '  <string id="%d">no name attribute</string>\n',
+                '  <plurals name="q%d"/>\n']
+
+
 def value_text(fmt, it, side):
     txt = " ".join(map(w_text, it[2]))
     if "esc" in it[3]:
@@ -305,7 +313,7 @@ def render(fmt, items, side):
         out.append('<?xml version="1.0" encoding="utf-8"?>\n<resources>\n')
     for n, it in enumerate(items):
         if it[0] == "junk":
-            out.append({"android": "  <junk n=\"%d\"/>\n" % n, "po": "junk text %d\n\n" % n,
+            out.append({"android": ANDROID_JUNK[n % len(ANDROID_JUNK)] % n, "po": "junk text %d\n\n" % n,
                         "dtd": "junk text %d\n" % n}.get(fmt, "junk text %d\n" % n))
             continue
         k, v = it[1], value_text(fmt, it, side)
@@ -456,7 +464,10 @@ class Tables:
                     except Exception:  # noqa
                         self.word_errors += 1
                 else:
-                    self.junk_msg[eid] = self.msg_id(e.error_message())
+                    try:
+                        self.junk_msg[eid] = self.msg_id(e.error_message())
+                    except Exception:  # noqa   compare() will hit the same: reported there as <fmt>-raised
+                        self.junk_msg[eid] = self.msg_id(("junk message raised", eid))
                 out.append([canon_key(e.key), vclass[(side, i)], words, int(junk), eid])
         # the checker on every pair of entities with the same key
         self.chk_sx = []
@@ -777,6 +788,10 @@ def suite_compare(chk, work, model, fmt, n, spicy):
             its = case[side]
             if any(a[0] == "rec" and b[0] == "rec" and not a[2] for a, b in zip(its, its[1:])):
                 chk.hist("empty_value_followed_by_record", f"{fmt}-{side}")
+        if fmt == "android":
+            for side in ("ref", "l10n"):
+                if any(it[0] == "junk" for it in case[side]):
+                    chk.hist("android_files_with_non_string_children", side)
         if fmt == "ftl":
             last = {it[1]: it for it in case["ref"] if it[0] == "rec"}
             for it in case["l10n"]:
